@@ -304,3 +304,173 @@ type IITag struct {
 	N         *int64
 	DeletedAt gorm.DeletedAt
 }
+
+// ---- Org: a third root model whose relations partly live in EMBEDDED structs ----------------
+//
+// Every world has an Org (soft-delete model, row identity U) that points at Nodes from up to three
+// LEVELS: the Org itself, a named embedded struct Site (`embedded;embeddedPrefix:site_`) and a second
+// named embedded struct Geo inside Site (two embedding levels). Each level carries a key tuple of
+// the world's key type (foreign key of the level's belongs-to, referenced key of its has-many /
+// has-one) and relations:
+//
+//	Org           --Home (belongs-to)--> Node                  the model's OWN relation
+//	Org.Site      --Home (belongs-to)--> Node                  same NAME as the own one and as Geo's
+//	Org.Site      --Crew (has-many)----> Node                  Node.boss = the Site key (name unique in the model)
+//	Org.Site.Geo  --Home (belongs-to)--> Node
+//	Org.Site.Geo  --Card (has-one)-----> Card                  Card.node = the Geo key (name unique in the model; I1: in Site)
+//	S1 only: Org.Site embeds S1Annex ANONYMOUSLY: --Annex (belongs-to)--> Node, path "Site.Annex";
+//	         Org embeds S1Lead anonymously:       --Mentor (belongs-to)--> Node, path "Mentor"
+//
+// In IS the outer embedded struct is the field Base (columns still site_*): there the plain names of
+// the embedded relations sort AFTER the name of the struct they live in, in the other worlds before
+// it (gorm walks the requested names in sorted order).
+//
+// Preload addresses a relation by its embedded path ("Site.Geo.Home"); the plain name "Home" is the
+// model's own relation for Preload, Joins and Association. The shapes differ per world: declaration
+// order (own Home before / after Site, Site.Home before / after Geo), value / pointer embedding,
+// explicit foreignKey tags with per-level field names / no tags with the SAME field name on both
+// embedded levels (I1: gorm's guess by bind-name proximity), pointer / value foreign keys.
+
+type SSGeo struct {
+	GA   *string
+	GB   *string
+	Home *SSNode `gorm:"foreignKey:GA,GB;references:A,B"`
+	Card *SSCard `gorm:"foreignKey:NodeA,NodeB;references:GA,GB"`
+}
+
+type SSSite struct {
+	SA   *string
+	SB   *string
+	Geo  SSGeo    `gorm:"embedded;embeddedPrefix:geo_"`
+	Home *SSNode  `gorm:"foreignKey:SA,SB;references:A,B"`
+	Crew []SSNode `gorm:"foreignKey:BossA,BossB;references:SA,SB"`
+}
+
+type SSOrg struct {
+	N         *int64
+	U         int64 `gorm:"primaryKey;autoIncrement:false"`
+	V         int64
+	HA        *string
+	HB        *string
+	DeletedAt gorm.DeletedAt
+	Home      *SSNode `gorm:"foreignKey:HA,HB;references:A,B"`
+	Site      SSSite  `gorm:"embedded;embeddedPrefix:site_"`
+}
+
+type ISGeo struct {
+	Card ISCard  `gorm:"foreignKey:NodeA,NodeB;references:GA,GB"`
+	Home *ISNode `gorm:"foreignKey:GA,GB;references:A,B"`
+	GA   *int64
+	GB   string
+}
+
+type ISSite struct {
+	Home *ISNode   `gorm:"foreignKey:SA,SB;references:A,B"`
+	Crew []*ISNode `gorm:"foreignKey:BossA,BossB;references:SA,SB"`
+	SA   int64
+	SB   *string
+	Geo  ISGeo `gorm:"embedded;embeddedPrefix:geo_"`
+}
+
+type ISOrg struct {
+	U         int64  `gorm:"primaryKey;autoIncrement:false"`
+	Base      ISSite `gorm:"embedded;embeddedPrefix:site_"`
+	V         int64
+	N         *int64
+	HA        *int64
+	HB        *string
+	Home      *ISNode `gorm:"foreignKey:HA,HB;references:A,B"`
+	DeletedAt gorm.DeletedAt
+}
+
+type IIGeo struct {
+	GA   *int64
+	GB   *int64
+	Home *IINode `gorm:"foreignKey:GA,GB;references:A,B"`
+	Card *IICard `gorm:"foreignKey:NodeA,NodeB;references:GA,GB"`
+}
+
+type IISite struct {
+	Geo  *IIGeo `gorm:"embedded;embeddedPrefix:geo_"`
+	SA   *int64
+	SB   int64
+	Crew []IINode `gorm:"foreignKey:BossA,BossB;references:SA,SB"`
+	Home *IINode  `gorm:"foreignKey:SA,SB;references:A,B"`
+}
+
+type IIOrg struct {
+	DeletedAt gorm.DeletedAt
+	N         *int64
+	U         int64 `gorm:"primaryKey;autoIncrement:false"`
+	V         int64
+	HA        int64
+	HB        *int64
+	Site      IISite  `gorm:"embedded;embeddedPrefix:site_"`
+	Home      *IINode `gorm:"foreignKey:HA,HB;references:A,B"`
+}
+
+type S1Annex struct {
+	XA    *string
+	Annex *S1Node `gorm:"foreignKey:XA;references:A"`
+}
+
+type S1Lead struct {
+	MA     *string
+	Mentor *S1Node `gorm:"foreignKey:MA;references:A"`
+}
+
+type S1Geo struct {
+	GA   string
+	Home *S1Node `gorm:"foreignKey:GA;references:A"`
+	Card *S1Card `gorm:"foreignKey:NodeA;references:GA"`
+}
+
+type S1Site struct {
+	S1Annex
+	SA   *string
+	Home *S1Node  `gorm:"foreignKey:SA;references:A"`
+	Geo  S1Geo    `gorm:"embedded;embeddedPrefix:geo_"`
+	Crew []S1Node `gorm:"foreignKey:BossA;references:SA"`
+}
+
+type S1Org struct {
+	S1Lead
+	N         *int64
+	U         int64 `gorm:"primaryKey;autoIncrement:false"`
+	V         int64
+	Site      S1Site `gorm:"embedded;embeddedPrefix:site_"`
+	HA        *string
+	Home      *S1Node `gorm:"foreignKey:HA;references:A"`
+	DeletedAt gorm.DeletedAt
+}
+
+// I1: no tags on the Home relations of the embedded levels, whose foreign key field is called HomeA
+// on both (gorm guesses <relation name><key name> and takes the field closest to the relation); the
+// has-many / has-one both live in Site and reference a field of their own (SK / CK), so that the
+// inner struct Geo holds nothing but a relation named like one of the outer struct. The Org's OWN
+// Home names its foreign key (HA): an own field HomeA next to embedded ones of the same name is not
+// generated (which of them gorm's guess takes for the own relation is schema parsing, not C11).
+type I1Geo struct {
+	HomeA *int64
+	Home  *I1Node
+}
+
+type I1Site struct {
+	HomeA *int64
+	Geo   I1Geo `gorm:"embedded;embeddedPrefix:geo_"`
+	Home  *I1Node
+	SK    int64
+	Crew  []*I1Node `gorm:"foreignKey:BossA;references:SK"`
+	CK    *int64
+	Card  I1Card `gorm:"foreignKey:NodeA;references:CK"`
+}
+
+type I1Org struct {
+	U         int64 `gorm:"primaryKey;autoIncrement:false"`
+	N         *int64
+	V         int64
+	HA        *int64
+	Home      *I1Node `gorm:"foreignKey:HA;references:A"`
+	Site      I1Site  `gorm:"embedded;embeddedPrefix:site_"`
+	DeletedAt gorm.DeletedAt
+}
